@@ -3,6 +3,14 @@
 worktree of /repo HEAD): every exit code must be 0. Writes selftest/BENIGN_MATRIX.json."""
 import json, os, subprocess, sys, concurrent.futures as cf, tempfile, shutil
 VERIF = os.path.dirname(os.path.dirname(os.path.abspath(__file__)))
+
+
+def _copy(dst):
+    """scratch copy of the analysed parts of /repo's working tree (no git involved)"""
+    for sub in ("middleware", "docs", os.path.join("firmware", "src")):
+        shutil.copytree(os.path.join("/repo", sub), os.path.join(dst, sub), symlinks=True,
+                        ignore=shutil.ignore_patterns("__pycache__", "*.pyc"))
+
 BD = os.path.join(VERIF, "selftest", "benign")
 NAMES = sorted(f[:-5] for f in os.listdir(BD) if f.endswith(".diff"))
 if len(sys.argv) > 1:
@@ -12,8 +20,8 @@ PROPS = [f"C{i:02d}" for i in range(1, 20)]
 def run_one(name):
     wt = tempfile.mkdtemp(prefix=f"benmx-{name}-", dir="/tmp"); os.rmdir(wt)
     try:
-        subprocess.check_call(["git", "-C", "/repo", "worktree", "add", "--detach", "-q", wt, "HEAD"], stdout=subprocess.DEVNULL, stderr=subprocess.DEVNULL)
-        r = subprocess.run(["git", "-C", wt, "apply", os.path.join(BD, name + ".diff")], capture_output=True, text=True)
+        _copy(wt)
+        r = subprocess.run(["git", "apply", "--whitespace=nowarn", os.path.join(BD, name + ".diff")], capture_output=True, text=True, cwd=wt)
         if r.returncode != 0:
             return name, {"error": r.stderr[:200]}
         res = {}
@@ -24,7 +32,6 @@ def run_one(name):
                 res[p] = {"rc": o.returncode, "lines": [l.strip()[:400] for l in o.stdout.splitlines() if l.strip().startswith("rule ") or "ANALYSIS-ERROR" in l][:6]}
         return name, res
     finally:
-        subprocess.run(["git", "-C", "/repo", "worktree", "remove", "--force", wt], stdout=subprocess.DEVNULL, stderr=subprocess.DEVNULL)
         shutil.rmtree(wt, ignore_errors=True)
 
 out = {}
